@@ -15,7 +15,7 @@ from c06_common import (unit, SRC, parser_tables, dispatch, vaarg_sites, is_fiel
                         loopvar_rule, emitter_functions)
 from common import AnalysisBroken
 from irlib import V
-from c13_fv import FV, IV, PV, CV, INF, DBL_MAX
+from c13_fv import FV, IV, PV, CV, INF, DBL_MAX, vjoin
 import c13_fi
 from c13_fi import FI
 
@@ -217,6 +217,8 @@ class FiRun:
         if fi.silent:
             return None
         ptrs = [a for a in args[2:] if isinstance(a, PV)]
+        if ptrs:
+            fi.cstr_len(st, ptrs[0], i)          # records where the terminator of the handed-over text is
         self.tokens.append((cstr_of(fi, st, ptrs[0]) if ptrs else None, i))
         return None
 
@@ -286,11 +288,24 @@ def fi_rules(rep, mod, T, fams):
     w = where_fn(f)
     runs = {}
     times = {}
+    facts = {}
     for fam, triple in fams.items():
         pct = '%' + fam
+        facts[fam] = {'ranges': {}, 'cstr_end': {}}
+
+        def absorb(run, fam=fam):
+            """cursor ranges and terminator positions proved in this value class, joined over the classes"""
+            fa = facts[fam]
+            for k, v in run.fi.ranges.items():
+                o = fa['ranges'].get(k)
+                fa['ranges'][k] = v if o is None else vjoin(o, v)
+            for o, e in run.fi.cstr_end.items():
+                if isinstance(o, tuple):
+                    fa['cstr_end'][o[1]] = max(fa['cstr_end'].get(o[1], -1), e)
         # ---------------- every finite double
         r = FiRun(mod, T, triple, 'finite')
         runs[fam] = r
+        absorb(r)
         times[pct + ' finite'] = round(r.seconds, 2)
         for (n, L, info) in r.heavy_loops():
             if info is None:
@@ -336,6 +351,7 @@ def fi_rules(rep, mod, T, fams):
                  fact={'stores_examined': r.nstores})
         # ---------------- long double beyond the double range
         r2 = FiRun(mod, T, triple, 'ldbl')
+        absorb(r2)
         times[pct + ' ldbl'] = round(r2.seconds, 2)
         nonterm = [n for (n, L, info) in r2.heavy_loops() if info is not None and info['closed'] != 'unrolled' and
                    not counted_exit(f, L)]
@@ -348,6 +364,7 @@ def fi_rules(rep, mod, T, fams):
         # ---------------- infinities and NaN
         for cls, upper in (('nan', 0), ('nan', 1), ('+inf', 0), ('-inf', 1)):
             r3 = FiRun(mod, T, triple, cls, upper)
+            absorb(r3)
             times['%s %s' % (pct, cls)] = round(r3.seconds, 2)
             loops_run = [n for (n, L, info) in r3.heavy_loops() if info is not None]
             nonterm = [n for (n, L, info) in r3.heavy_loops() if info is not None and info['closed'] != 'unrolled']
@@ -369,13 +386,13 @@ def fi_rules(rep, mod, T, fams):
                      None if ok else 'texts handed to the string routine: %r; direct output calls: %d' % (toks, r3.handler_calls),
                      fact={'texts': toks})
     rep.extra['c13_fi_seconds'] = times
-    return runs
+    return runs, facts
 
 
 # ----------------------------------------------------------------------------------------------
 # emission part
 # ----------------------------------------------------------------------------------------------
-def sx_rules(rep, mod, T, fams, runs):
+def sx_rules(rep, mod, T, fams, facts):
     import c13_sx
     f = mod.fn(FN)
     w = where_fn(f)
@@ -383,7 +400,7 @@ def sx_rules(rep, mod, T, fams, runs):
     for fam, triple in fams.items():
         pct = '%' + fam
         t0 = time.time()
-        sx, rets, wp = c13_sx.run_family(mod, T, FN, triple, runs[fam].fi.ranges if fam in runs else {})
+        sx, rets, wp = c13_sx.run_family(mod, T, FN, triple, facts[fam]['ranges'], facts[fam]['cstr_end'])
         bad = [(s, rv) for s, rv in rets if not (isinstance(rv, c13_sx.Lin) and s.cons.entails_eq(rv, s.E))]
         ok = bool(rets) and not bad
         rep.inst('R-PCACC', FN, '%s: returned count == number of output callbacks on every path' % pct, ok, w,
@@ -419,5 +436,5 @@ def run(rep, repo, tier):
             fams[c] = fam_by_conv[c]
     if not fams:
         raise AnalysisBroken('no floating conversion reaches %s with constant mode arguments' % FN)
-    runs = fi_rules(rep, mod, T, fams)
-    sx_rules(rep, mod, T, fams, runs)
+    runs, facts = fi_rules(rep, mod, T, fams)
+    sx_rules(rep, mod, T, fams, facts)
